@@ -358,7 +358,7 @@ func checkC12(w *World, r *Report) {
 	checkCallers(callersOf, 0)
 	r.floor("call sites of the macro choke point", n4, 1)
 	checkParserDoesNotEvaluate(w, r)
-	checkImportsRenderLibrary(w, r)
+	checkImportsRenderLibrary(w, r, "R12.7")
 	checkChainWalkBounds(w, r, "R12.8")
 }
 
@@ -954,7 +954,7 @@ func checkParserDoesNotEvaluate(w *World, r *Report) {
 // template's nodes.  Collecting macros another way for one of the two forms (scanning top-level
 // nodes) misses macros defined under an `if`, or handed on by the library's own imports, for
 // that form only.
-func checkImportsRenderLibrary(w *World, r *Report) {
+func checkImportsRenderLibrary(w *World, r *Report, rule string) {
 	n := 0
 	for _, tn := range []string{"ImportNode", "FromImportNode"} {
 		m := w.tryMethod(tn, "Render")
@@ -979,15 +979,42 @@ func checkImportsRenderLibrary(w *World, r *Report) {
 			}
 			// a helper of the package that does it on every successful path
 			if g := cc.StaticCallee(); g != nil && w.inPkg(g) && g != fn && len(g.Blocks) > 0 {
-				found := false
-				instrsOf(g, func(x ssa.Instruction) {
+				direct := func(x ssa.Instruction) bool {
 					if c2, ok := x.(ssa.CallInstruction); ok && c2.Common().IsInvoke() && c2.Common().Method.Name() == "Render" {
+						if _, isDefer := x.(*ssa.Defer); isDefer {
+							return false
+						}
 						if _, ok := fieldLoad(unspill(c2.Common().Value), "Template", "nodes"); ok {
-							found = true
+							return true
 						}
 					}
+					return false
+				}
+				found := false
+				instrsOf(g, func(x ssa.Instruction) {
+					if direct(x) {
+						found = true
+					}
 				})
-				return found
+				if !found {
+					return false
+				}
+				// … on every path to a return that can carry a nil error
+				every := true
+				instrsOf(g, func(x ssa.Instruction) {
+					ret, ok := x.(*ssa.Return)
+					if !ok || !every {
+						return
+					}
+					res := retResults(ret)
+					if len(res) > 0 && errorSurelyNonNil(res[len(res)-1], ret.Block()) {
+						return
+					}
+					if b, _ := existsPathAvoiding(g, x, direct, nil); b {
+						every = false
+					}
+				})
+				return every
 			}
 			return false
 		}
@@ -1007,9 +1034,9 @@ func checkImportsRenderLibrary(w *World, r *Report) {
 			}
 		})
 		if bad == "" {
-			r.ok("R12.7", ssaName(fn), construct, w.posOf(fn.Pos()), "no nil-error return is reachable without a Render of the loaded template's nodes", true)
+			r.ok(rule, ssaName(fn), construct, w.posOf(fn.Pos()), "no nil-error return is reachable without a Render of the loaded template's nodes", true)
 		} else {
-			r.bad("R12.7", ssaName(fn), construct, w.posOf(fn.Pos()), "a successful return at "+bad+" is reachable without rendering the library: its macros are gathered some other way than for the sibling directive, so the same macro is reachable through one form of import and missing (or another macro) through the other")
+			r.bad(rule, ssaName(fn), construct, w.posOf(fn.Pos()), "a successful return at "+bad+" is reachable without rendering the library: its macros are gathered some other way than for the sibling directive, so the same macro is reachable through one form of import and missing (or another macro) through the other")
 		}
 	}
 	r.Counts["import directives checked for rendering the library"] = n
